@@ -797,3 +797,119 @@ Qed.
 
 Lemma oracle_sound acts ls : check_C10 (history false ls (init acts)) = true.
 Proof. apply check_sim; [apply init_inv|apply Rel_init]. Qed.
+
+(* ------------------------------------------------------------------ exactly one winner *)
+(* a spawn that failed with ActorAlreadyRegistered was beaten by somebody: the name is still
+   held, or a holder has released it since *)
+Definition released (p : pc) : bool :=
+  match p with PStopping | PStopped | PWaited => true | _ => false end.
+
+Definition InvJ (s : st) : Prop :=
+  forall n a x, nth_error (actors s) a = Some x -> named x n = true -> a_pc x = PFailed ->
+    lookup n (names s) <> None \/
+    exists b y, nth_error (actors s) b = Some y /\ named y n = true /\ released (a_pc y) = true.
+
+Lemma InvJ_init acts : InvJ (init acts).
+Proof.
+  intros n a x E _ P. unfold init in E; simpl in E. rewrite nth_error_map in E.
+  destruct (nth_error acts a); try discriminate. injection E as <-. discriminate.
+Qed.
+
+(* pc change of actor i with the name table unchanged, not to PFailed, not un-releasing *)
+Lemma InvJ_pc s i x p' nm pd :
+  InvJ s -> nth_error (actors s) i = Some x -> p' <> PFailed ->
+  (released (a_pc x) = true -> released p' = true) ->
+  (forall n, lookup n (names s) <> None -> lookup n nm <> None \/ (named x n = true /\ released p' = true)) ->
+  InvJ (set_pc (mkSt nm pd (actors s)) i x p').
+Proof.
+  intros J E Hp Hr Hn n a y Ey Ny Py. unfold set_pc in *; simpl in *.
+  assert (Hai : a <> i).
+  { intros ->. rewrite (nth_error_upd_eq _ _ _ _ E) in Ey. injection Ey as <-. simpl in Py. congruence. }
+  rewrite nth_error_upd_neq in Ey by auto.
+  destruct (J _ _ _ Ey Ny Py) as [H|(b & z & Ez & Nz & Rz)].
+  - destruct (Hn _ H) as [H'|[Nx Rx]]; auto.
+    right. exists i. eexists. rewrite (nth_error_upd_eq _ _ _ _ E). split; [reflexivity|]. split; auto.
+  - right. destruct (Nat.eq_dec b i) as [->|Hb].
+    + rewrite E in Ez. injection Ez as <-. exists i. eexists.
+      rewrite (nth_error_upd_eq _ _ _ _ E). split; [reflexivity|]. split; simpl; auto.
+    + exists b, z. rewrite nth_error_upd_neq by auto. auto.
+Qed.
+
+Lemma InvJ_step s l : Inv s -> InvJ s -> InvJ (step false s l).
+Proof.
+  intros I J.
+  assert (SAME : forall i x p', nth_error (actors s) i = Some x -> p' <> PFailed ->
+            (released (a_pc x) = true -> released p' = true) -> InvJ (set_pc s i x p')).
+  { intros i x p' E Hp Hr.
+    replace (set_pc s i x p') with (set_pc (mkSt (names s) (pids s) (actors s)) i x p') by reflexivity.
+    apply InvJ_pc; auto. }
+  destruct l as [i|i ok|i|i|i|n|a]; simpl; auto.
+  - destruct (nth_error (actors s) i) as [x|] eqn:E; auto.
+    destruct (a_pc x) eqn:Epc; auto.
+    + (* PNew *)
+      destruct (a_remote x) eqn:Er; [apply SAME; auto; [discriminate|rewrite Epc; discriminate]|].
+      destruct (a_name x) as [n0|] eqn:En; [|apply SAME; auto; [discriminate|rewrite Epc; discriminate]].
+      destruct (lookup n0 (names s)) as [j|] eqn:EL.
+      * (* becomes PFailed: the name is held right now *)
+        intros n a y Ey Ny Py. unfold set_pc in *; simpl in *.
+        destruct (Nat.eq_dec a i) as [->|Hai].
+        -- rewrite (nth_error_upd_eq _ _ _ _ E) in Ey. injection Ey as <-.
+           assert (n = n0) as ->.
+           { apply named_spec in Ny as [_ Hn]. simpl in Hn. congruence. }
+           left. congruence.
+        -- rewrite nth_error_upd_neq in Ey by auto.
+           destruct (J _ _ _ Ey Ny Py) as [H|(b & z & Ez & Nz & Rz)]; auto.
+           right. exists b, z. destruct (Nat.eq_dec b i) as [->|Hb].
+           ++ rewrite E in Ez. injection Ez as <-. rewrite Epc in Rz. discriminate.
+           ++ rewrite nth_error_upd_neq by auto. auto.
+      * apply InvJ_pc; auto; [discriminate|rewrite Epc; discriminate|].
+        intros n H. left. simpl. destruct (N.eqb n0 n); auto. discriminate.
+    + destruct (a_remote x); apply InvJ_pc; auto; try discriminate; rewrite Epc; discriminate.
+    + apply InvJ_pc; auto; try discriminate; rewrite Epc; discriminate.
+    + (* PStop2: the name may be released *)
+      destruct (a_name x) as [n0|] eqn:En; [|apply SAME; auto; discriminate].
+      rewrite orb_false_r. destruct (a_remote x) eqn:Er; simpl; [apply SAME; auto; discriminate|].
+      apply InvJ_pc; auto; try discriminate.
+      intros n H. rewrite lookup_remove. destruct (N.eqb n0 n) eqn:E0; auto.
+      apply N.eqb_eq in E0. subst n. right. split; auto. apply named_spec; auto.
+  - destruct (nth_error (actors s) i) as [x|] eqn:E; auto. destruct (a_pc x) eqn:Epc; auto.
+    apply SAME; auto; [destruct ok; discriminate|rewrite Epc; discriminate].
+  - destruct (nth_error (actors s) i) as [x|] eqn:E; auto. destruct (a_pc x) eqn:Epc; auto.
+    apply SAME; auto; [discriminate|rewrite Epc; discriminate].
+  - destruct (nth_error (actors s) i) as [x|] eqn:E; auto. destruct (a_pc x) eqn:Epc; auto.
+    apply SAME; auto; discriminate.
+  - destruct (nth_error (actors s) i) as [x|] eqn:E; auto. destruct (a_pc x) eqn:Epc; auto;
+      apply SAME; auto; discriminate.
+Qed.
+
+Lemma InvJ_run ls s : Inv s -> InvJ s -> InvJ (run false ls s).
+Proof.
+  revert s; induction ls as [|l r IH]; intros s I J; simpl; auto.
+  apply IH; [apply Inv_step; auto|apply InvJ_step; auto].
+Qed.
+
+Lemma exactly_one_winner acts ls n :
+  let s := run false ls (init acts) in
+  (forall b y, nth_error (actors s) b = Some y -> named y n = true -> released (a_pc y) = false) ->
+  (exists a x, nth_error (actors s) a = Some x /\ named x n = true /\ a_pc x <> PNew) ->
+  exists w, lookup n (names s) = Some w /\
+    forall a x, nth_error (actors s) a = Some x -> named x n = true -> a_pc x <> PNew -> a <> w ->
+                a_pc x = PFailed.
+Proof.
+  intros s NoRel (a & x & E & Nx & Att).
+  pose proof (reach_inv acts ls) as I. pose proof (InvJ_run ls _ (init_inv acts) (InvJ_init acts)) as J.
+  fold s in I, J.
+  assert (W : exists w, lookup n (names s) = Some w).
+  { destruct (holds_name (a_pc x)) eqn:H.
+    - exists a. eapply (iB _ I); eauto.
+    - pose proof (NoRel _ _ E Nx) as R.
+      assert (a_pc x = PFailed) as Pf by (destruct (a_pc x); try discriminate; congruence).
+      destruct (J _ _ _ E Nx Pf) as [L|(b & y & Ey & Ny & Ry)].
+      + destruct (lookup n (names s)) as [w|]; [eauto|congruence].
+      + rewrite (NoRel _ _ Ey Ny) in Ry. discriminate. }
+  destruct W as (w & Lw). exists w. split; auto.
+  intros a' x' E' N' Att' Ne.
+  destruct (holds_name (a_pc x')) eqn:H.
+  - assert (lookup n (names s) = Some a') by (eapply (iB _ I); eauto). congruence.
+  - pose proof (NoRel _ _ E' N') as R. destruct (a_pc x'); try discriminate; congruence.
+Qed.
